@@ -126,8 +126,8 @@ func randomReady(r *lib.Rand) RScenario {
 	var parked, ctxs []int
 	for i := 0; i < n; i++ {
 		k := r.Intn(10)
-		if ncons >= 4 && k >= 1 && k <= 5 {
-			k = 9 // at most four consumer calls per scenario (the model's state set is 5^width)
+		if ncons >= 5 && k >= 1 && k <= 5 {
+			k = 9 // at most five consumer calls per scenario (the model's state set is 5^width)
 		}
 		switch k {
 		case 0:
@@ -460,7 +460,7 @@ func randomTA(r *lib.Rand) TScenario {
 	ver := 0
 	for i := 0; i < n; i++ {
 		k := r.Intn(9)
-		if ncons >= 4 && k >= 1 && k <= 5 {
+		if ncons >= 5 && k >= 1 && k <= 5 {
 			k = 6
 		}
 		switch k {
